@@ -13,11 +13,13 @@ pub struct Choppy {
     pub reads: usize,
     /// every n-th read call fails with ErrorKind::Interrupted first (0 = never): std's contract says retry
     pub interrupt_every: usize,
+    /// bit k set = the k-th read call (counted from 0, first 64 calls) fails with ErrorKind::Interrupted
+    pub interrupt_calls: u64,
 }
 
 impl Choppy {
     pub fn new(data: Vec<u8>, mask: u64, chunk: usize) -> Choppy {
-        Choppy { data, pos: 0, mask, chunk: chunk.max(1), reads: 0, interrupt_every: 0 }
+        Choppy { data, pos: 0, mask, chunk: chunk.max(1), reads: 0, interrupt_every: 0, interrupt_calls: 0 }
     }
     pub fn position(&self) -> usize {
         self.pos
@@ -28,6 +30,9 @@ impl Read for Choppy {
     fn read(&mut self, buf: &mut [u8]) -> Result<usize> {
         self.reads += 1;
         if self.interrupt_every > 0 && self.reads % self.interrupt_every == 0 {
+            return Err(std::io::Error::new(std::io::ErrorKind::Interrupted, "verif: interrupted"));
+        }
+        if self.reads <= 64 && self.interrupt_calls & (1u64 << (self.reads - 1)) != 0 {
             return Err(std::io::Error::new(std::io::ErrorKind::Interrupted, "verif: interrupted"));
         }
         let left = self.data.len().saturating_sub(self.pos);
